@@ -225,6 +225,8 @@ class Writer(Client):
         if rng.random() < cfg.check_share:
             n = rng.choice(CHECK_LENGTHS)
             op["vt"] = design.k + 1 if n == "k+1" else n
+        if rng.random() < 0.2:
+            op["np_start"] = True
         return op
 
     def deliver(self, op, rec):
@@ -398,6 +400,8 @@ class Sequencer(Client):
                 rdesign, faults = rng.choice(skewed), faults + ["GRAPH_SKEW"]
         op = {"op": "READ", "mode": sim.prof["reader_mode"], "design": rdesign.id, "start": rstart, "mol": mol.id,
               "origin": w, "edits": edits, "read": read, "faults": faults, "check": check}
+        if rng.random() < 0.2:
+            op["np_start"] = True
         if op["mode"] == "decode":
             exact = len(mol.bits) if mol.bits is not None else 2 * n
             op["bit_length"] = max(0, rng.choice([exact, exact, 0, exact // 2, exact + rng.randint(1, 9), 2 * len(read) + 2]))
